@@ -52,6 +52,10 @@ struct Params {
     /// senders keep their end until every value has been received: a receiver that a send
     /// failed to wake is not rescued by the disconnect
     linger: bool,
+    /// receiver 0 starts with a recv_timeout(d): every sender sleeps until shortly before that
+    /// time-out expires, then sends and drops its end at once (send + disconnect racing with
+    /// the expiry); value = how much earlier than d
+    aim_expiry: Option<u64>,
 }
 
 const DURS: [u64; 5] = [1_000, 500_000, 1_000_000, 1_500_000, 3_000_000];
@@ -87,9 +91,15 @@ fn gen(seed: u64, only: Option<Flavor>) -> Params {
         _ => 2 * block - 3 + r.below(5) as usize,
     };
     let rx_quit_after = if r.chance(1, 4) { Some(r.below(4) as usize) } else { None };
-    let mut p = Params { rt, flavor, senders, receivers, preroll, rx_quit_after, main_hold: r.below(10) as u32, linger: false };
-    // drawn last: everything above is the same as before this field existed
+    let mut p = Params { rt, flavor, senders, receivers, preroll, rx_quit_after, main_hold: r.below(10) as u32, linger: false, aim_expiry: None };
+    // drawn last: everything above is the same as before these fields existed
     p.linger = r.chance(1, 2) && p.rx_quit_after.is_none();
+    if let Some(ROp::RecvTimeout(_)) = p.receivers[0].1.first() {
+        if r.chance(1, 2) {
+            p.aim_expiry = Some(*r.pick(&[0u64, 50, 500, 5_000, 50_000]));
+            p.linger = false;
+        }
+    }
     p
 }
 
@@ -350,6 +360,10 @@ pub fn run(seed: u64, only: Option<Flavor>, mut ov: impl FnMut(&mut engine::Cfg)
         }
     }
     let linger = p.linger;
+    let aim: Option<u64> = match (p.aim_expiry, p.receivers[0].1.first()) {
+        (Some(early), Some(ROp::RecvTimeout(d))) => Some(d.saturating_sub(early)),
+        _ => None,
+    };
     TOTAL.store(p.senders.iter().map(|s| s.1 as u32).sum(), Ordering::Relaxed);
     for (si, ((ctx, n, dally), tx)) in p.senders.iter().cloned().zip(txs.into_iter()).enumerate() {
         let all_ids = all_ids.clone();
@@ -358,6 +372,9 @@ pub fn run(seed: u64, only: Option<Flavor>, mut ov: impl FnMut(&mut engine::Cfg)
         actors.push(rt::spawn_actor(ctx, &name, move || {
             for k in 0..n {
                 rt::dally(dally);
+                if let (Some(t), true) = (aim, k + 1 == n) {
+                    rt::nap(t);
+                }
                 let id = (si * 100 + k) as u32;
                 all_ids.lock().unwrap().push(id);
                 let rx_gone = RX_ALL_DROPPED.load(Ordering::Relaxed);
